@@ -1993,6 +1993,10 @@ def eval_pso(ctx, case, lines, pend):
     x = mkx()
     res['oop'] = safe_call(op, x)
     xa['oop'] = snapshot(x)
+    if kind in ('proj', 'projl') and res['oop'].status == 'ok' and \
+            shares(arrays_of(res['oop'].obj), arrays_of(x)):
+        # the model (compProjO / compProjListO, `.copy()`) returns NEW objects
+        ctx.disagree(case, 'op(x) shares memory with x', 'model: new objects', stream='pso')
     x = mkx()
     y = mky()
     res['ip'] = safe_call(op, x, out=y)
